@@ -34,6 +34,13 @@ CONSTANTS
   TrackQueries = FALSE
   StickyQueries = FALSE
   Preset = ""
+  IndirectRefresh = "never"
+  UnlockOnPanic = TRUE
+  CountMemo = FALSE
+  EmptyType = "panic"
+  LitRetype = FALSE
+  DepKinds = {}
+  Edits = {}
   Observers = {"PrintModule"}
   EmitFile = "transitions.ndjson"
 VIEW View
